@@ -1505,7 +1505,7 @@ fn eval_call(
                     &stmts,
                 )
                     .context(EvalFuncCallFailed{
-                        func_name,
+                        func_name: func_name.clone(),
                         call_loc: (*line, *col),
                     })?;
 
@@ -1515,10 +1515,26 @@ fn eval_call(
                 match v {
                     Escape::None =>
                         value::new_null(),
-                    Escape::Break{..} =>
-                        return Err(Error::BreakOutsideLoop),
-                    Escape::Continue{..} =>
-                        return Err(Error::ContinueOutsideLoop),
+                    Escape::Break{loc: (break_line, break_col)} =>
+                        return Err(Error::EvalFuncCallFailed{
+                            source: Box::new(Error::AtLoc{
+                                source: Box::new(Error::BreakOutsideLoop),
+                                line: break_line,
+                                col: break_col,
+                            }),
+                            func_name,
+                            call_loc: (*line, *col),
+                        }),
+                    Escape::Continue{loc: (continue_line, continue_col)} =>
+                        return Err(Error::EvalFuncCallFailed{
+                            source: Box::new(Error::AtLoc{
+                                source: Box::new(Error::ContinueOutsideLoop),
+                                line: continue_line,
+                                col: continue_col,
+                            }),
+                            func_name,
+                            call_loc: (*line, *col),
+                        }),
                     Escape::Return{value, ..} =>
                         value,
                 }
